@@ -345,7 +345,8 @@ def attribute(c, findings):
                 a, _, b = w.partition("  /  ")
                 selfty = a.split(" for ")[-1] if " for " in a else ""
                 if a == b and selfty in dup_items: continue          # the item itself is emitted twice
-                if w.startswith("blanket TryFrom: impl TryFrom<::std::string::String> for"): use("C01-tryfrom-blanket", ["E0119"]); continue
+                if w.startswith(("blanket TryFrom: impl TryFrom<::std::string::String> for", "blanket TryFrom: impl TryFrom<&::std::string::String> for")):
+                    use("C01-tryfrom-blanket", ["E0119"]); continue
                 if w.startswith("reflexive: ") and "Box<" in w and "deref_finite" in false: use("C01-alias-cycle-deref", ["E0055"], ["E0119"]); continue
                 if a.startswith("impl Default for") and "Default" in (c.request["settings"].get("derives") or []): use("C01-derive-default-conflict", ["E0119"])
                 elif "Vec<" in a and a != b and a.replace("::std::vec::Vec<", "Vec<") == b.replace("::std::vec::Vec<", "Vec<"): use("C01-set-vec-from", ["E0119"])
